@@ -56,6 +56,8 @@ class SliceOperator(LinearOperator):
                 f" domain ({self._domain.shape})"
             )
             raise ValueError(ve)
+        new_shape = tuple(self._domain[i].shape if shape is None else tuple(np.atleast_1d(shape))
+                          for i, shape in enumerate(new_shape))
         for i, shape in enumerate(new_shape):
             if len(np.atleast_1d(shape)) != len(self._domain[i].shape):
                 ve = (
@@ -66,9 +68,7 @@ class SliceOperator(LinearOperator):
         tgt = []
         slc_by_ax = []
         for i, d in enumerate(self._domain):
-            if new_shape[i] is None or np.all(
-                np.array(self._domain.shape[i]) == np.array(new_shape[i])
-            ):
+            if tuple(d.shape) == tuple(new_shape[i]):
                 tgt += [d]
             elif np.all(np.array(new_shape[i]) <= np.array(d.shape)):
                 dom_kw = dict()
